@@ -165,7 +165,7 @@ pub fn lockstep(g: &Grammar, l: &Lock, via_file: Option<&std::path::Path>) -> V 
 }
 
 /// index of the first token of the node at `path` in the token list of `doc`
-fn node_token_range(doc: &Doc, path: &[usize]) -> Option<(usize, usize)> {
+pub fn node_token_range(doc: &Doc, path: &[usize]) -> Option<(usize, usize)> {
     // pre-order id of the node
     fn count(n: &Node) -> usize {
         1 + n.children.iter().map(count).sum::<usize>()
